@@ -109,4 +109,4 @@ def ignoredFrom (rng : Rng) : Nat → List (List Char) → Bool
     (rng.overlaps ⟨pos, pos + l.length⟩ && ignoreSearch l) || ignoredFrom rng (pos + l.length) ls
 
 def hasIgnoreComment (src : List Char) (rng : Rng) : Bool :=
-  ignoredFrom rng 0 (splitLines pyBreak src)
+  ignoredFrom rng 0 (splitLines astBreak src)   -- physical lines as the tokenizer sees them (since the repair 2dfbdbe)
